@@ -4,9 +4,9 @@ from ..fdai import EnumV, AggV, K, SymV, RefV, Cell, Loc, TOP, load, snapshot
 from . import dispatch as D, contrib as CB, lexer as LX, convert as CV
 
 LEVEL = "other"
-TECHNIQUE = "FDAI dispatch table of Tokenizer::next over (class of first byte, class of second byte or end, in_header, in_common, after_data) compared with the IEEE 488.2 section 7 dispatch rules (incl. flag updates and bytes consumed); CFG must-pass-through rules for the three 12-character limits; FDAI path rule 'every data reader ends in skip_ws_to_separator (or at end of input)'; non-ASCII rejection sites; block-length dataflow; radix table; field-write census of the lexer flags"
-LEVEL_TEXT = "The per-element dispatch of the lexer is a finite function of the byte classes it distinguishes and three flags; it is enumerated completely (about 3700 abstract states) and compared row by row with the section 7 rules the statement names (`:` only inside a non-common header before a letter, `?` only in a header before white space/`;`/end, `,` only right after a data element, NL only as last byte, data only outside the header, ...). The length limits, the separator-after-datum rule, the non-ASCII rejections and the block length are path rules over the readers' CFGs."
-LEVEL_NOTE = "Not decided: exact payload byte ranges for all inputs, doubled-quote handling and white-space placement inside the readers' loops, the numeric grammar inside read_nrf - these are value-level and quantify over input strings. Trusted: rustc MIR, FDAI byte-cursor models."
+TECHNIQUE = 'FDAI dispatch table of Tokenizer::next over (class of first byte, class of second byte or end, in_header, in_common, after_data) compared with the IEEE 488.2 section 7 dispatch rules (incl. flag updates and bytes consumed); whole-element tables: Tokenizer::next folded, with every tokenizer function analysed in place, on representative complete elements of every kind (mnemonics, character data, decimal numbers with suffixes, strings, expressions, definite/indefinite blocks, non-decimal numbers, the data separator followed by each kind) and compared with a reference lexer written from 488.2 section 7 - token kind, payload bytes and bytes consumed; the 12-character limits and the separator-after-datum rule are named rows of those tables; non-ASCII rejection sites; block-length dataflow; radix table; thorough tier: every text over a small alphabet of the distinguished bytes up to a length bound (about 9200 inputs)'
+LEVEL_TEXT = 'The per-element dispatch of the lexer is a finite function of the byte classes it distinguishes and three flags; it is enumerated completely (about 3700 abstract states) and compared row by row with the section 7 rules the statement names (`:` only inside a non-common header before a letter, `?` only in a header before white space/`;`/end, `,` only right after a data element, NL only as last byte, data only outside the header, ...). Element boundaries, payloads, the length limits and the separator-after-datum rule are decided by folding the lexer on representative elements and comparing with the reference lexer.'
+LEVEL_NOTE = "Not decided: elements beyond the enumerated representatives (uniformity of the readers' per-byte loops); the numeric value of decimal data (C07/C08). Trusted: rustc MIR, FDAI byte-cursor models, lexical-core's integer parsers by contract."
 
 TK = "scpi::parser::tokenizer::Tokenizer::"
 WS = (9, 10, 12, 13, 32)
